@@ -73,6 +73,26 @@ def node_stage(pid, tier, seed, known, cov, violations, known_hits):
                                           diverging_node_runs=len(r["divergences"])))
         violations.append((path, "no-failing-input-found"))
 
+MIXED_PROPS = {"C03", "C19", "C20"}
+
+def mixed_stage(pid, tier, seed, cov, violations):
+    """factories with Fleet / conveyor / Buffer edges: run twice here and in two fresh interpreters with different hash seeds"""
+    import mixed_family as mf
+    tf = time.time()
+    r = mf.run_mixed_family(tier, seed)
+    cov["families"]["mixed"] = dict(factories=r["n"], edge_kinds=r["kinds"], movements=r["movements"], crashes=r["crashes"],
+                                    fresh_interpreters_with_PYTHONHASHSEED=r["hashseeds"],
+                                    judge_violations_all_props=len(r["viol"]), wall_s=round(time.time() - tf, 2))
+    cov["evaluations"] += r["n"] * 4; cov["distinct_nontrivial"] += r["n"]
+    mine = [v for v in r["viol"] if v[0] == pid]
+    say(f"[check {pid}] family mixed: {r['n']} factories x (2 runs here + 2 fresh interpreters), edge kinds {r['kinds']}, "
+        f"{r['movements']} movements, {len(mine)} judge hits for {pid}")
+    if mine:
+        mine.sort(key=lambda v: (v[3]["nm"], v[3]["horizon"]))
+        p_, rule, msg, cfg = mine[0]
+        path = checklib.write_replay(pid, seed, "mixed-factory", None, None, dict(message=msg, rule=rule, mixed_config=cfg, factories_failing=len(mine)))
+        violations.append((path, msg))
+
 def config_stage(pid, tier, seed, cov, violations, known_hits=None):
     import config_family as cf
     tf = time.time()
@@ -217,6 +237,8 @@ def check_property(pid, tier, seed):
                 violations.append((path, "no-failing-input-found"))
     if pid in NODE_PROPS:
         node_stage(pid, tier, seed, known, cov, violations, known_hits)
+    if pid in MIXED_PROPS:
+        mixed_stage(pid, tier, seed, cov, violations)
     if pid == "C20":
         config_stage(pid, tier, seed, cov, violations, known_hits)
     # ---- known findings / fixed findings: replay the recorded witnesses on the real code
@@ -271,6 +293,13 @@ def check_property(pid, tier, seed):
 def replay(path):
     d = json.load(open(path))
     quiet()
+    if not d.get("ops") and (d.get("detail") or {}).get("mixed_config"):
+        import mixed_family as mf
+        cfg = d["detail"]["mixed_config"]
+        a = mf.build_and_run(cfg); b = mf.build_and_run(cfg)
+        say("mixed factory:", json.dumps(cfg)); say("error:", a["error"], " stats:", a["stats"])
+        say("digest run 1:", mf.digest(a), " run 2:", mf.digest(b), " (fresh interpreters: PYTHONHASHSEED=k python harness/mixed_family.py --emit <seed> <n>)")
+        return 1 if (a["error"] or mf.digest(a) != mf.digest(b)) else 0
     if not d.get("ops"):
         cfg = (d.get("detail") or {}).get("config")
         if cfg:
